@@ -383,6 +383,10 @@ struct Engine {
         s.stepi = 3, s.stepj = 0x7D, s.stepi0 = 0x0005, s.stepj0 = 0xFFF9;
         if (variant & 1)
             s.cmd = 0;
+        if (variant == 6) { // end-pointer mode of r3 / r7: every step except +-2 zeroes the register, whatever form names it
+            s.epi = s.epj = 1;
+            return s;
+        }
         if (variant >= 4) { // modulo addressing on for every register, each at the end (variant 4) or the start (variant 5) of its 8-word buffer:
                             // the forms that carry a modulo-disable flag step linearly, the others wrap
             s.modi = s.modj = 7;
@@ -393,7 +397,7 @@ struct Engine {
     }
     // E: every opcode whose form names address registers with steps: the registers step as configured
     void GenericStep(u16 op, const DecodeInfo& d) {
-        for (int variant = 0; variant < 6; ++variant) {
+        for (int variant = 0; variant < 7; ++variant) {
             VState s = GenericState(variant);
             std::vector<Use> uses;
             if (!UsesOf(d, s, uses))
@@ -608,11 +612,15 @@ inline void Run(const Args& args, Result& res) {
                     // ---- A2: configured step (+s): all 128 7-bit steps x 16-bit step alphabet x stp16 x cmd x br
                     for (int stp16 = 0; stp16 < 2; ++stp16)
                         for (int cmd = 0; cmd < 2; ++cmd)
-                            for (int br = 0; br < 2; ++br) {
+                            for (int br = 0; br < 3; ++br) { // br == 2: end-pointer mode of r3/r7 (the configured step zeroes the register like +1/-1 do)
+                                if (br == 2 && unit != 3 && unit != 7)
+                                    continue;
                                 if (!mine())
                                     continue;
                                 VState s = e.base;
-                                s.stp16 = (u16)stp16, s.cmd = (u16)cmd, s.br[unit] = (u16)br;
+                                s.stp16 = (u16)stp16, s.cmd = (u16)cmd, s.br[unit] = (u16)(br == 1);
+                                if (br == 2)
+                                    s.epi = s.epj = 1;
                                 for (u16 s7 = 0; s7 < 128; ++s7)
                                     for (u16 s16 : {(u16)0x0000, (u16)0x0001, (u16)0x7FFF, (u16)0x8000, (u16)0xFFFF, (u16)0x0100, (u16)0x01FF}) {
                                         (unit < 4 ? s.stepi : s.stepj) = s7;
